@@ -477,6 +477,11 @@ func runNames(c *sup.Child, b sup.Batch) {
 			var steps, muts int64
 			for i := 0; i < nops; i++ {
 				op := gen.Next()
+				if cf.Base == "disk" && op.View > 0 && op.View < len(model.Views) {
+					if n := model.Get(model.Views[op.View]); n == nil || !n.Dir {
+						return // a disk view whose root directory is gone is outside C02's preconditions
+					}
+				}
 				hist = append(hist, op)
 				got := subj.Exec(i, op)
 				v := model.Step(op, got)
